@@ -881,6 +881,26 @@ func (env *Env) call(n *ast.CallExpr) (Val, error) {
 			return Val{T: a.T, L: []string{sIte(sLe(a.one(), b.one()), a.one(), b.one())}}, nil
 		}
 		return Val{T: a.T, L: []string{sIte(sLe(a.one(), b.one()), b.one(), a.one())}}, nil
+	case "called":
+		// called(Name, n): the n-th call of a function or method called Name lies on the path taken (its block was
+		// reached); false if there is no such call at all
+		id, ok := n.Args[0].(*ast.Ident)
+		if !ok || len(n.Args) != 2 {
+			return Val{}, fmt.Errorf("called(Name, n)")
+		}
+		lit, ok := n.Args[1].(*ast.BasicLit)
+		if !ok {
+			return Val{}, fmt.Errorf("called(Name, n)")
+		}
+		ord, _ := strconv.Atoi(lit.Value)
+		call := fx.callRets[fmt.Sprintf("%s@%d", id.Name, ord)]
+		if call == nil {
+			return Val{T: bt, L: []string{tFalse}}, nil
+		}
+		if r, done := fx.reach[call.Block()]; done {
+			return Val{T: bt, L: []string{r}}, nil
+		}
+		return Val{T: bt, L: []string{tFalse}}, nil
 	case "ret":
 		// ret(Name, n [, k]): (the k-th result of) the n-th call of a function or method called Name in this function;
 		// independent of what the local variable holding it is called
